@@ -373,7 +373,9 @@ pub fn run(rep: &mut Report) {
         .into();
     let tier = rep.tier;
     let mut cases: Vec<Box<dyn Case>> = Vec::new();
-    for cfg in lattice(tier.thorough()).into_iter().filter(|c| c.m == 1 && c.n > 1) {
+    // (bit length 1 included: its proofs have no folding round and no wire form the decoder accepts -- C15's known finding --
+    // so only the prover's own proof object is judged there)
+    for cfg in lattice(tier.thorough()).into_iter().filter(|c| c.m == 1) {
         cases.push(keyed_case::<F>(cfg, tier));
         cases.push(keyed_case::<RistrettoPoint>(cfg, tier));
         if tier.thorough() || cfg.n <= 8 {
